@@ -5,29 +5,31 @@ import json
 CLAIMED = {
  "C01": ("Fold functions of the optimizer (binaryopInts/Floats, binaryop, unaryop, isLiteralFalsy) are proved against the same specArith/specUnary/specFalsy that the VM's operator methods and xOpUnary are proved against, keep the literal position and never panic, for all operand values. Not decided: completeness of shadow tracking in transform, equivalence of the private-VM evaluation (slowEvalExpr), canOptimizeInsts tables.",
          "go/ssa extraction, VC generator, solvers; strconv formatters opaque; composition from per-function contracts to whole scripts is argued in DESIGN.md, not machine-checked"),
- "C03": ("Handler-stack discipline of the try opcodes proved function by function: SETUPTRY pushes exactly one entry, SETUPCATCH/SETUPFINALLY change only the top entry and deliver the pending error once, THROW 0 without pending error removes exactly the entry being left on every path (normal completion and pending jump), findFinally pops only entries without finally (goto loop with quantified invariants). Not decided: throw/handleThrownError (trusted contract), FINALIZER/RETURN arms of VM.loop, compiler side.",
+ "C03": ("Handler-stack discipline of the try opcodes proved function by function: SETUPTRY pushes exactly one entry, SETUPCATCH/SETUPFINALLY change only the top entry and deliver the pending error once, THROW 0 without pending error removes exactly the entry being left on every path (normal completion and pending jump), findFinally pops only entries without finally (goto loop with quantified invariants), and a self-recursive tail call (frame reuse in xOpCallCompiled) leaves the frame without handlers and without pending error. Not decided: throw/handleThrownError (trusted contract), FINALIZER/RETURN arms of VM.loop, compiler side.",
          "trusted contract for (*VM).throw; vm.curFrame and vm.frames[] are modelled as non-aliasing; the induction from opcode contracts to all programs is argued"),
- "C05": ("Fold functions total (no division/shift panic) for all operands. Not yet under contract: emitter operand limits, MakeInstruction/ReadOperands, parser totality.",
-         "only the optimizer fold functions are covered so far"),
+ "C04": ("decode(encode(x)) == x bit for bit for the scalar constant kinds Int, Uint, Char, Float (including -0.0 and NaN) and Bool: lemmas over the real MarshalBinary / UnmarshalBinary bodies. Not decided: strings, bytes, containers, compiled functions, file sets, the reader-based DecodeObject path, module re-binding, and the step from equal constants and code to equal behaviour.",
+         "binary.PutVarint/Varint and PutUvarint/Uvarint trusted as mutually inverse abstract encodings of 1..10 bytes (ghost model; encoded bytes assumed not overwritten before decoding)"),
+ "C05": ("Fold functions total (no division/shift panic) for all operands; MakeInstruction proved for every opcode (an instruction is produced iff the operands fit the opcode's operand table read from the source, it has the table's length and decodes back to the same operands) and ReadOperands proved against the same decoding spec; operand-table arity lemma. Not decided: the emitter's reaction to operand overflow (panic(err) in emit/changeOperand is a known open issue not yet under contract), parser and scanner totality, termination.",
+         "OpcodeOperands read mechanically from its initialiser (checked: never assigned outside init); fmt.Errorf returns non-nil"),
  "C15": ("Equal and BinaryOp of Int, Uint, Float, Char, Bool, String, Bytes, undefined proved against specEq/specArith/specOrder for all operand values (bit-vector/IEEE semantics), errors are ZeroDivisionError/TypeError and never a panic; symmetry, trichotomy and derived-order lemmas over the spec; xOpUnary. Not decided: arrays/maps/errors Equal, the VM's OpEqual/OpNotEqual arms.",
          "dynamic TypeName()/String() calls assumed panic-free; interface-level dispatch closed over the listed kinds"),
- "C16": ("searchInts (binary search, quantified loop invariants), unpack, position, Position, Offset, searchFiles, SourceFileSet.file/Position: reported line/column are the true ones for the line table and every returned file contains the position. Not decided: AddLine invariant preservation (parked), scanner line-table construction, optimizer on/off equality, shift-by-k.",
-         "sort.Search trusted contract; undecided obligation listed in evidence"),
+ "C18": ("Safety sweep with thin contracts of the version 2 decoder: toVarint, readByteFrom, varintConv.read/readBytes, DecodeObject, decodeBytecodeV2, Bytecode.UnmarshalBinary and the UnmarshalBinary methods of every constant kind, function kinds, SourceFile and SourceFileSet: no index, slice, nil, type-assertion, division or make panic for arbitrary input bytes and readers, and every allocation whose size is not a constant is bounded by 1 MiB or by the input bytes in hand (len of the input slice / Len() of the reader). Not decided: the version 1 converter (assumed contract, excluded from the claim), gob fallback, three parked obligations (builtin table contents, DecodeObject non-nil result).",
+         "stdlib models: io.ReadFull, bytes.NewReader/NewBuffer non-nil, Reader/Buffer.Len, binary varints, fmt.Errorf/errors.New non-nil; calls through io.Reader return arbitrary results; gob and reflect opaque; loop-free of invariants except automatically derived counter bounds (proved at every back edge)"),
+ "C16": ("searchInts (binary search, quantified loop invariants), unpack, position, Position, Offset, searchFiles, SourceFileSet.file/Position: reported line/column are the true ones for the line table and every returned file contains the position. AddLine preserves the line-table invariant. Not decided: scanner line-table construction, optimizer on/off equality, shift-by-k.",
+         "sort.Search trusted contract (calls f only inside [0,n), f(r) and !f(r-1))"),
 }
 NA = {
  "C02": "no contract within reach states source-level semantics of compiled code; only call-binding could be covered and is not built yet",
- "C04": "codec round-trip contracts not built yet",
  "C06": "panic-freedom of the code outside the VM's recover not built yet",
  "C07": "two-state (non-interference) contracts on the Run prologue not built yet",
  "C08": "quantifies over goroutine interleavings and data races; the sequential VC generator has no ownership or permission logic",
  "C09": "cross-goroutine abort/cancellation protocol with bounded liveness; no thread or liveness support in this family",
  "C10": "relates two compilation histories (N fragments vs one concatenation); no per-function contract expresses it",
- "C11": "converter contract (relocation of jump targets) not built yet",
+ "C11": "the converter's relocation contract (loop invariant over the instruction stream) is not discharged yet; MakeInstruction/ReadOperands, which it relies on, are proved under C05; the relocation defect itself was repaired (fix: commit)",
  "C12": "module store / LOADMODULE-STOREMODULE contracts not built yet",
  "C13": "symbol-table invariant contracts not built yet",
  "C14": "binding equivalence contracts (initLocals vs xOpCallCompiled) not built yet",
  "C17": "oracle is encoding/json itself; stating it as contracts means formalising that implementation (string/sequence reasoning outside the solvers' reach)",
- "C18": "decoder safety sweep not built yet",
  "C19": "builtin safety sweep not built yet",
  "C20": "ToObject/ToInterface contracts not built yet",
 }
